@@ -401,6 +401,28 @@ class Fn:
                     out.append((b, i, strip_generics(st['r']['def'])))
         return out
 
+    def fn_items_passed(self):
+        """keys of functions named as values (not called) in call arguments or assignments of this body"""
+        out = []
+        def ops_of(x):
+            if isinstance(x, dict):
+                if x.get('k') == 'const' and x.get('fn'):
+                    out.append(strip_generics(x['fn']))
+                for v in x.values():
+                    if isinstance(v, (dict, list)):
+                        ops_of(v)
+            elif isinstance(x, list):
+                for y in x:
+                    ops_of(y)
+        for b in sorted(self.reachable()):
+            for st in self.stmts(b):
+                if st['k'] == 'assign':
+                    ops_of(st['r'])
+            t = self.term(b)
+            if t['k'] == 'call':
+                ops_of(t['args'])
+        return out
+
     # ---- reaching definitions
     def _defs(self):
         """list of def sites: (local, b, i, kind, partial) ; i = stmt index or 'T' for terminator"""
@@ -594,6 +616,9 @@ class Fn:
         while clo[0] in ('ref', 'deref'):
             clo = clo[1]
         prog = getattr(self, 'program', None)
+        if clo[0] == 'fnitem' and isinstance(clo[1], str):
+            # a function named as the callback (`.map(Cfg::new)`): the call itself
+            return ('call', clo[1], tuple(args), -1)
         if prog is None or clo[0] != 'agg' or not str(clo[1]).startswith('closure:') or depth < 10:
             return None
         g = prog.fns.get(clo[1][len('closure:'):])
@@ -1355,8 +1380,19 @@ class Program:
         # closures whose aggregate is built in these bodies although they were written in an inlined helper
         seen = {g.key for g in out} | {f.key}
         work = [f] + list(out)
+        base = getattr(self, 'baseline', None)
         while work:
             h = work.pop()
+            if base is not None:
+                # a NEW private function handed over as a callback (`self.access(Entry::accepts::<T>)`) plays the role of the closure
+                # `|e| e.accepts::<T>()` it replaced
+                for ck in h.fn_items_passed():
+                    g = self.fns.get(ck)
+                    if g is not None and ck not in base and g.key not in seen and g.kind not in ('closure', 'promoted'):
+                        seen.add(g.key)
+                        out.append(g)
+                        if transitive:
+                            work.append(g)
             for (_, _, ck) in h.closures_created():
                 g = self.fns.get(ck)
                 if g is not None and g.key not in seen:
